@@ -1,5 +1,6 @@
 CFG = {
-    "modules": ["Parsley.Props.C08", "Parsley.Lemmas.ConformsStab", "Parsley.Lemmas.TypeCheckSound", "Parsley.Props.C08Frag"],
+    "modules": ["Parsley.Props.C08", "Parsley.Lemmas.ConformsStab", "Parsley.Lemmas.TypeCheckSound", "Parsley.Props.C08Frag",
+                "Parsley.Lemmas.TypeCheckComplete", "Parsley.Lemmas.ConformsNorm", "Parsley.Spec.TypeCheckWF"],
     "theorems": [
         "Parsley.C08.conforms_perm_alternatives", "Parsley.C08.Conforms_perm_alternatives",
         "Parsley.C08.conforms_perm_keys", "Parsley.C08.conforms_antitone",
@@ -7,6 +8,12 @@ CFG = {
         "Parsley.C08.Conforms_iff_conf_card", "Parsley.C08.gfp_eq_conf_card", "Parsley.C08.gfp_iff_Conforms",
         "Parsley.C08.machine_eq_conforms_F1", "Parsley.C08.machine_eq_conforms_F1_fuel", "Parsley.C08.machine_eq_oracle_F1",
         "Parsley.TC.Sound.checkType_F1", "Parsley.C08.shipped_namedictionary_correct",
+        # C08e: COMPLETENESS for ALL well-formed specifications, disjunctions included (the real checker never rejects a conforming object)
+        "Parsley.C08.machine_complete", "Parsley.C08.machine_complete_fuel", "Parsley.C08.machine_reject_sound",
+        "Parsley.C08.machine_eq_conforms", "Parsley.C08.machine_disagreement_is_false_accept", "Parsley.C08.machine_complete_oracle",
+        "Parsley.TC.Complete.checkType_complete", "Parsley.TC.Complete.run_complete", "Parsley.TC.Complete.step_ok",
+        "Parsley.TC.Complete.unwind_ok", "Parsley.TC.Complete.processCheck_spec", "Parsley.TC.Complete.conforms_disj_alt",
+        "Parsley.TC.Complete.closedC_chkU", "Parsley.TC.Norm.conforms_norm", "Parsley.TC.Norm.wfChk_norm",
         "Parsley.C08.machine_eq_conforms_leaf", "Parsley.C08.machine_eq_conforms_partial",
         "Parsley.C08.F1_fails_for_orig_witness", "Parsley.C08.shared_alternative_leak_witness",
         "Parsley.C08.memo_leak_witness", "Parsley.C08.disjunct_attrs_dropped_witness",
@@ -16,27 +23,31 @@ CFG = {
     ],
     "partial": {
         "Parsley.C08.machine_eq_conforms_partial":
-            "machine verdict (code as it is, Fix.tree, run with the proved work bound) = declarative verdict is PROVED on FRAGMENT F1 "
-            "(Frag.inF1, decidable, Spec/TypeCheckFrag.lean: among the checks reachable from the specification no disjunction, no "
-            "dangling name, no Any-typed element/entry with an indirect requirement but no predicate): EVERY graph (reference chains, "
-            "undefined and cyclic references), EVERY object, arrays, heterogeneous arrays, dictionaries with required/optional/forbidden "
-            "keys and wildcard entry, streams, named RECURSIVE types, predicates and indirect requirements on every node "
-            "(machine_eq_conforms_F1; = the judge's oracle: machine_eq_oracle_F1). NOT proved: specifications with a reachable "
-            "disjunction. There the statement is false for the code as it is (memo leak: memo_leak_witness, and already with leaf "
+            "machine verdict (code as it is, Fix.tree, run with the proved work bound) = declarative verdict. COMPLETENESS is proved for ALL "
+            "well-formed specifications, disjunctions included (machine_complete: Conforms -> accept for every graph, context, object and "
+            "every specification satisfying the decidable Frag.wfSpec = every name bound to a representation, no empty disjunction; hence "
+            "every disagreement is a false accept: machine_disagreement_is_false_accept). SOUNDNESS (accept -> Conforms), and so the "
+            "equivalence, is PROVED on FRAGMENT F1 (Frag.inF1, decidable, Spec/TypeCheckFrag.lean: among the checks reachable from the "
+            "specification no disjunction, no dangling name, no Any-typed element/entry with an indirect requirement but no predicate): "
+            "EVERY graph (reference chains, undefined and cyclic references), EVERY object, arrays, heterogeneous arrays, dictionaries with "
+            "required/optional/forbidden keys and wildcard entry, streams, named RECURSIVE types, predicates and indirect requirements on "
+            "every node (machine_eq_conforms_F1; = the judge's oracle: machine_eq_oracle_F1). NOT proved: soundness for specifications "
+            "with a reachable disjunction. There it is false for the code as it is (memo leak: memo_leak_witness, and already with leaf "
             "alternatives shared_alternative_leak_witness); the fragment F2 on which it is conjectured to hold (Frag.inF2: every "
             "alternative a leaf check without indirect requirement of its own, pairwise different, and PRIVATE = occurring nowhere else "
             "among the reachable checks) is stated and enforced by the judge on every case (a disagreement inside F1/F2 is reported as "
-            "f1-theorem-violated / f2-conjecture-violated, never as a known finding) but not proved; Any-typed entries with a bare "
+            "f1-theorem-violated / f2-conjecture-violated, a false reject on a well-formed specification as "
+            "completeness-theorem-violated, never as a known finding) but not proved; Any-typed entries with a bare "
             "indirect requirement are decided wrongly (any_entry_skips_indirect_witness). False for Fix.orig (F1_fails_for_orig_witness)",
     },
     "n": {"quick": 3000, "thorough": 60000},
     "exhaustive": {"quick": False, "thorough": True},
     "shrink": False,
-    "rule": "corpus (every section-4 defect, the witnesses, cycles through a disjunction-typed edge; fragment_f1.case: sized arrays too long/short, the leaf-alternative memo leaks, a recursive type on a cyclic graph); exhaustive small: every one/two-level specification over a menu "
+    "rule": "corpus (every section-4 defect, the witnesses, cycles through a disjunction-typed edge; complete.case: conforming objects whose run passes failing alternatives, memo hits, exhausted nested disjunctions and a returned reference pair before the conforming alternative; fragment_f1.case: sized arrays too long/short, the leaf-alternative memo leaks, a recursive type on a cyclic graph); exhaustive small: every one/two-level specification over a menu "
             "of 9 leaf checks (5 in quick) x 39 objects over a 4-object graph with sharing, equal duplicates, an undefined and a "
             "self reference; random: specs of depth <= 3 from all constructors (named recursive types, predicates, indirect "
             "requirements) x graphs of <= 3 random objects + objects fitted to the spec (60%) or random (40%); non-trivial = "
-            "compound specification or compound/reference object; objects fitted to a sized array are one element too long or too short one time in four; the judge evaluates the fragment predicates Frag.inF1/inF2 on every disagreement of the tree configuration (inside a fragment it is a violation, never a known finding; quick tier: 5134 of 10926 generated cases lie in F1, 4294 of them with a compound specification, 1721 cases with a disjunction lie in F2); + n/10 cyclic container graphs whose cycle passes through a "
+            "compound specification or compound/reference object; objects fitted to a sized array are one element too long or too short one time in four; the judge evaluates the fragment predicates Frag.inF1/inF2 and Frag.wfSpec on every disagreement of the tree configuration (inside a fragment, or a false reject on a well-formed specification, it is a violation, never a known finding; quick tier: 5134 of 10926 generated cases lie in F1, 4294 of them with a compound specification, 1721 cases with a disjunction lie in F2); + n/10 cyclic container graphs whose cycle passes through a "
             "disjunction-typed edge (kids typed leaf|node|tmpl by name)",
     "trusted_base": COMMON_TB + [
         "modelled, not verified: BTreeSet/BTreeMap/VecDeque/Rc semantics (memo as a list with the derived structural equality; "
@@ -49,6 +60,8 @@ CFG = {
     ],
     "assumptions": [
         "specifications have no empty disjunction (the code panics with unreachable!(); such cases are skipped by the judge)",
+        "machine_complete assumes Frag.wfSpec: every name occurring in the specification or the context is registered and bound to a "
+        "representation (the code leaves through UnknownTypeCheck otherwise, also for an optional entry whose key is absent)",
         "every registered named check is a full representation; predicates are deterministic functions of the object"],
 }
 LEVEL = {
@@ -58,13 +71,22 @@ LEVEL = {
     "text": "Machine-checked: order-independence of alternatives and of dictionary entries for the declarative conformance relation "
             "(all specs/objects/depths), monotonicity of its unfolding chain and stabilisation within |pairs| levels on the finite "
             "universe of a case (conforms_stabilises), hence the executable oracle of the judge decides Conforms exactly "
-            "(gfp_iff_Conforms); machine = specification for ALL graphs and objects on fragment F1 = every specification without a reachable "
+            "(gfp_iff_Conforms); COMPLETENESS for ALL specifications, disjunctions included (machine_complete: for every graph, context, "
+            "object and every well-formed specification - names bound, no empty disjunction - a conforming object is accepted by the "
+            "machine = the code as it is; never rejected, never a panic, although the memo leaks; proof by an invariant over the stack of "
+            "pending sets: trusted sets conform, an untrusted region sits above an in-progress disjunction that still has a conforming "
+            "alternative, so unwind never empties the stack; plus: a conforming disjunction has a conforming alternative by pigeonhole on "
+            "the decreasing chain, normalisation of nested disjunctions preserves conformance; Lemmas/TypeCheckComplete.lean, "
+            "ConformsNorm.lean) - so every disagreement is a false accept (machine_disagreement_is_false_accept); "
+            "machine = specification for ALL graphs and objects on fragment F1 = every specification without a reachable "
             "disjunction (arrays, heterogeneous arrays, dictionaries, wildcard entries, streams, recursive named types, predicates, "
             "indirect requirements; machine_eq_conforms_F1, proof by the invariant memo + pending closed under obligations, "
-            "Lemmas/TypeCheckSound.lean) -- partial: with disjunctions only the conjectured fragment F2 is stated and tested -- and eleven "
+            "Lemmas/TypeCheckSound.lean) -- partial: SOUNDNESS with disjunctions is false for the code as it is (memo leak), only the "
+            "conjectured fragment F2 is stated and tested -- and eleven "
             "witness theorems. The model mirrors get_next_check/unwind/push_checks/return_check, "
             "the memo and every per-type case, one flag per defect; it agrees with the real code on verdict and error kind on every "
             "generated case. Eleven defects were found; nine are repaired (commits C08-01..09 in /repo), two remain as known findings "
             "(memo leak across alternatives of a disjunction; Any-typed entry with an indirect requirement skipped, asserted by a "
-            "test of the crate) with an executable single-repair classifier and witness theorems.",
+            "test of the crate) with an executable single-repair classifier and witness theorems; all recorded findings are false "
+            "accepts, as the completeness theorem says they must be.",
 }
